@@ -16,8 +16,7 @@ def _alloc(name, part, pats, rank=100, mem='0M', cpu='0%', disk='0M', traits=())
 
 
 def _man(name, mem=1, cpu=1, disk=1, **kw):
-    d = dict(name=name, memory='%dM' % mem, cpu='%d%%' % cpu, disk='%dM' % disk,
-             affinity=name.split('.')[1])
+    d = dict(name=name, demand=[mem * 1024, cpu, disk * 1024], affinity=name.split('.')[1])
     d.update(kw)
     return d
 
@@ -25,16 +24,16 @@ def _man(name, mem=1, cpu=1, disk=1, **kw):
 SCENARIOS = {
     'base': dict(
         racks={'rack:r1': ['s1', 's2'], 'rack:r2': ['s3']}, partitions=['pB'], traits=['t1'],
-        sprofiles=[dict(cap=[2, 2, 2], label='_default', traits=[]),
-                   dict(cap=[3, 3, 3], label='pB', traits=['t1']),
-                   dict(cap=[1, 1, 1], label='_default', traits=['t1'])],
+        sprofiles=[dict(cap=[2048, 2, 2048], label='_default', traits=[]),
+                   dict(cap=[3072, 3, 3072], label='pB', traits=['t1']),
+                   dict(cap=[1024, 1, 1024], label='_default', traits=['t1'])],
         server_init={'s1': 1, 's2': 1, 's3': 2},
         allocsets=[[_alloc('proid/x', '_default', [('proid.web*', 1)]),
                     _alloc('proid/z', 'pB', [('proid.db*', 5)])],
                    [_alloc('proid/x', 'pB', [('proid.web*', 1)]),
                     _alloc('proid/z', 'pB', [('proid.db*', 5)], traits=['t1'])],
-                   [_alloc('proid/x', '_default', [('proid.web*', 7)], rank=90, mem='1M', cpu='1%',
-                           disk='1M'),
+                   [_alloc('proid/x', '_default', [('proid.web*', 7)], rank=90, mem='1G', cpu='1%',
+                           disk='1024M'),
                     _alloc('proid/z', '_default', [('proid.db*', 5)])]],
         aprofiles=[_man('proid.web', identity_group='proid.g1', data_retention_timeout='2s'),
                    _man('proid.db', 2, 2, 2, lease='3s'),
